@@ -126,7 +126,9 @@ impl G {
     }
 }
 
-pub const TEXT_CHARS: [char; 18] = ['a', 'b', 'c', 'x', 'y', 'z', ' ', 'q', '~', '`', 'j', '\u{7f}', 'é', '世', '─', '\u{a0}', '😀', 'E'];
+/// (zero-width code points - combining acute, ZWSP, ZWJ, VS16 - occupy a cell like any other
+/// printable; they are here so that code which starts to look at display widths is seen)
+pub const TEXT_CHARS: [char; 22] = ['a', 'b', 'c', 'x', 'y', 'z', ' ', 'q', '~', '`', 'j', '\u{7f}', 'é', '世', '─', '\u{a0}', '😀', 'E', '\u{301}', '\u{200b}', '\u{200d}', '\u{fe0f}'];
 
 pub fn text_char(src: &mut Src) -> char {
     *src.pick(&TEXT_CHARS)
@@ -335,8 +337,22 @@ pub fn inert(src: &mut Src, g: &G) -> String {
             // DCS
             let intro = if g.c1 && src.chance(1, 3) { "\u{90}" } else { "\x1bP" };
             let pre = *src.pick(&["", "q", "1;2q", "$q", "+q", "?1$r", "1:2x", ">|", "0;1|", " q"]);
+            // now and then a header with more parameters than the parser stores
+            let many = if src.chance(1, 8) {
+                let n = *src.pick(&[31usize, 32, 33, 40]);
+                let mut h = String::from(*src.pick(&["", "?", ">"]));
+                for i in 0..n {
+                    if src.chance(1, 2) {
+                        h.push_str(&(i % 10).to_string());
+                    }
+                    h.push(';');
+                }
+                h
+            } else {
+                String::new()
+            };
             let term = if g.c1 && src.chance(1, 2) { "\u{9c}" } else { "\x1b\\" };
-            format!("{}{}{}{}", intro, pre, osc_payload(src, true), term)
+            format!("{}{}{}{}{}", intro, many, pre, osc_payload(src, true), term)
         }
         3 => {
             // SOS / PM / APC
@@ -437,8 +453,15 @@ pub fn raw(src: &mut Src, g: &G) -> String {
             // huge parameter values
             let digits = src.range(5, 12);
             s.push_str(csi(src, g));
-            for _ in 0..digits {
-                s.push((b'0' + src.below(10) as u8) as char);
+            if src.chance(1, 2) {
+                // aliases modulo 2^16 (and 2^32) of values that mean something
+                let v = *src.pick(&[0u64, 1, 2, 3, 4, 5, 6, 7, 20, 25, 38, 47, 48, 1047, 1048, 1049]);
+                let k = *src.pick(&[65536u64, 65536, 131072, 4294967296]);
+                s.push_str(&(v + k).to_string());
+            } else {
+                for _ in 0..digits {
+                    s.push((b'0' + src.below(10) as u8) as char);
+                }
             }
             if src.chance(1, 2) {
                 s.push(';');
